@@ -20,6 +20,7 @@ pub fn run(rep: &Report) -> bool {
         "C12" => props::c12::run(rep),
         "C13" => props::c13::run(rep),
         "C14" => props::c14::run(rep),
+        "C15" => props::c15::run(rep),
         "C16" => props::c16::run(rep),
         "C17" => props::c17::run(rep),
         "C18" => props::c18::run(rep),
@@ -76,6 +77,7 @@ pub fn replay(rep: &Report, path: &str) -> i32 {
         "C12" => props::c12::replay(rep, &stage, &j),
         "C13" => props::c13::replay(rep, &stage, &j),
         "C14" => props::c14::replay(rep, &stage, &j),
+        "C15" => props::c15::replay(rep, &stage, &j),
         "C16" => props::c16::replay(rep, &stage, &j),
         "C17" => props::c17::replay(rep, &stage, &j),
         "C18" => props::c18::replay(rep, &stage, &j),
